@@ -165,7 +165,8 @@ def work_pwchange(unit):
     import asimap.auth
 
     fails, n = [], 0
-    for proto, before, kind in unit:
+    for proto, before, kind, *rest in unit:
+        stamp = rest[0] if rest else "later"
         fw = FrontWorld(accounts={"alice": None, "bob": None})
         try:
             old = GOOD["alice"]
@@ -194,10 +195,15 @@ def work_pwchange(unit):
                     f.write(f"alice:{h}:mail-alice\n")
                 f.write(f"bob:{md5_hash(GOOD['bob'])}:mail-bob\n")
             st = os.stat(pwf)
-            os.utime(pwf, (st.st_atime + 5, st.st_mtime + 5))  # the rewrite is later than the server's last look
+            # the rewrite is later than the server's last look -- or the file was put back from a copy that kept its (earlier)
+            # modification time: cp -p, rsync -t, a restore from backup
+            dt = 5 if stamp == "later" else -3600
+            os.utime(pwf, (st.st_atime + dt, st.st_mtime + dt))
             fw.connect_requests.clear()
             det = {"proto": proto, "before": before, "rewrite": kind}
-            rp = {"driver": "c18-pwchange", "proto": proto, "before": before, "kind": kind}
+            rp = {"driver": "c18-pwchange", "proto": proto, "before": before, "kind": kind, "stamp": stamp}
+            if stamp != "later":
+                det["stamp"] = stamp
             ok_old, out_old = attempt(old)
             n += 1
             if kind == "same":
@@ -456,7 +462,8 @@ def run(tier, seed, jobs) -> Result:
     for f, n in pmap(work_login, [logins[i : i + 12] for i in range(0, len(logins), 12)], jobs):
         res.failures.extend(f)
         nl += n
-    pwc = [(p, b, k) for p in ("imap", "pop3") for b in ("none", "good-login", "bad-login", "bob-login") for k in PW_REWRITES]
+    pwc = [(p, b, k, st_) for p in ("imap", "pop3") for b in ("none", "good-login", "bad-login", "bob-login") for k in PW_REWRITES for st_ in ("later", "earlier")
+           if not (st_ == "earlier" and b == "none")]  # (before the server's first look there is nothing to be earlier than)
     npw = 0
     for f, n in pmap(work_pwchange, [pwc[i : i + 5] for i in range(0, len(pwc), 5)], jobs):
         res.failures.extend(f)
@@ -488,7 +495,7 @@ def replay(rec):
     if rp["driver"] == "c18-login":
         return work_login([(rp["proto"], rp["user"], rp["var"], rp["enc"])])[0]
     if rp["driver"] == "c18-pwchange":
-        return work_pwchange([(rp["proto"], rp["before"], rp["kind"])])[0]
+        return work_pwchange([(rp["proto"], rp["before"], rp["kind"], rp.get("stamp", "later"))])[0]
     from ..seams import EPOCH
 
     fw = FrontWorld()
